@@ -8,6 +8,7 @@ S->C : every problem is built with the real GpRegressor (hyper-parameters passed
        build_posterior(mean_only=True), with y_err and with the equivalent y_cov (arrays and lists), with the training set in given
        and reversed order.
 """
+import json
 import numpy as np
 
 from harness.core import Check
@@ -43,6 +44,10 @@ def run(tier):
         if n > 1 and not has_hn:
             variants.append(("auto", list(range(n))[::-1]))
         variants.append(("auto:integer-typed x", None))
+        Xa = np.array(pb["X"], dtype=float)
+        stationary = "cp" not in json.dumps(pb["kern"])                           # a change-point is tied to its location
+        if stationary and np.all((Xa.sum(axis=0) * 4096.0 / n) == np.round(Xa.sum(axis=0) * 4096.0 / n)):
+            variants.append(("auto:coordinates shifted by 2^40", None))       # (data mean exactly representable there)
         if pb["kern"]["k"] in ("se", "rq"):
             variants.append(("auto:units 2^-20", None))
         base_mu, base_cov, base_prior, base_scale, base_yscale = want_mu, want_cov, prior, scale, yscale
@@ -50,11 +55,12 @@ def run(tier):
             what = {"errors_given_as": variant, "training_order": order}
             xint = variant.endswith("integer-typed x")
             units = -20 if variant.endswith("units 2^-20") else 0
+            xshift = (2.0 ** 40 + 1234567 * 2.0 ** -12) if variant.endswith("shifted by 2^40") else 0.0      # a full 53-bit mantissa
             variant = variant.split(":")[0]
             c_ = 2.0 ** units
             try:
-                gp, hp, _ = GE.regressor(pb, variant, order, xint=xint, units=units)
-                q = Q if Q.shape[1] > 1 else Q[:, 0]
+                gp, hp, _ = GE.regressor(pb, variant, order, xint=xint, units=units, xshift=xshift)
+                q = (Q + xshift) if Q.shape[1] > 1 else (Q + xshift)[:, 0]
                 mu, sd = gp(q)
                 mu2, S2 = gp.build_posterior(q)
                 mu3 = gp.build_posterior(q, mean_only=True)
@@ -71,15 +77,17 @@ def run(tier):
                 # path independence: other hyper-parameters set (and used) in between, compared with a fresh regressor in the same state,
                 # then the original ones restored
                 try:
-                    gp.set_hyperparameters(hp + 0.37)
+                    hp += 0.37                                   # the caller's own array (the one given at construction), modified IN PLACE
+                    gp.set_hyperparameters(hp)
                     mu_o, sd_o = gp(q)
                     fresh, _, _ = GE.regressor(pb, variant, order)
-                    fresh.set_hyperparameters(hp + 0.37)
+                    fresh.set_hyperparameters(hp.copy())
                     mu_f, sd_f = fresh(q)
+                    hp -= 0.37
                     gp.set_hyperparameters(hp)
                     mu_r, sd_r = gp(q)
                     if not (np.allclose(mu_o, mu_f, rtol=1e-10, atol=1e-12) and np.allclose(sd_o, sd_f, rtol=1e-10, atol=1e-12)
-                            and np.array_equal(np.asarray(mu_r), np.asarray(mu)) and np.array_equal(np.asarray(sd_r), np.asarray(sd))):
+                            and np.allclose(mu_r, mu, rtol=1e-10, atol=1e-12) and np.allclose(sd_r, sd, rtol=1e-10, atol=1e-12)):
                         ck.violation("predictions depend only on the data and the current hyper-parameters (not on hyper-parameters set and used before)",
                                      {**idn, "after_change": mu_o, "fresh_regressor_same_state": mu_f, "first": mu, "after_restoring": mu_r},
                                      site="GpRegressor.set_hyperparameters:stale-state")
@@ -92,6 +100,38 @@ def run(tier):
             elif np.any(var < -1e-9 * scale) or np.any(var > prior * (1 + 1e-9) + 1e-9):
                 ck.violation("predictive variances lie between zero and the prior variance", {**idn, **what, "variance": var, "prior": prior},
                              site="GpRegressor.variance")
+        # far beyond a SHARP change-point (transition 2^-11 wide, all points >= 1 to its right) the prior is the second kernel's: the posterior
+        # is the one of the plain problem with that kernel
+        if pb["kern"]["k"] in ("se", "rq") and Q.shape[1] == 1:
+            from inference.gp import GpRegressor
+            ck.case(str(idn) + "sharp-cp")
+            try:
+                first = {"k": "se", "ja": 0, "m": [3]}
+                cpk, cth = G.build_kernel({"k": "cp", "parts": [first, pb["kern"]], "axis": 1, "cs": [-3]}, 1, n)
+                cth = list(cth)
+                cth[-1] = 2.0 ** -11 / np.log(2.0)
+                meanc, mthc = G.build_mean(pb["mean"])
+                sig_ = G.rmat(pb["sig"])
+                gpc = GpRegressor(x=np.array(pb["X"], dtype=float)[:, 0], y=np.array(pb["y"], dtype=float), y_cov=sig_ if sig_.any() else None,
+                                  hyperpars=np.array(list(mthc) + cth), kernel=cpk, mean=meanc)
+                with np.errstate(all="ignore"):
+                    mu_c, sd_c = gpc(Q[:, 0])
+                    mu_c2, S_c2 = gpc.build_posterior(Q[:, 0])
+                if not (GE.close(mu_c, base_mu, base_yscale) and GE.close(mu_c2, base_mu, base_yscale) and GE.close(np.asarray(sd_c) ** 2, np.diag(base_cov), base_scale)
+                        and GE.close(S_c2, base_cov, base_scale)):
+                    ck.violation("far to the right of a sharp change-point the posterior is that of the second kernel alone",
+                                 {**idn, "change_point": -3, "width": cth[-1], "want_mean": base_mu, "got_mean": mu_c, "got_variance": np.asarray(sd_c) ** 2},
+                                 site="ChangePoint.__call__:far-side")
+            except Exception as ex:
+                ck.violation("GpRegressor with a sharp change-point raised", {**idn, "error": repr(ex)[:300]}, site="ChangePoint.__call__:far-side")
+        # m(x) and m(q) are the same function also far from the origin (data translated by ~2^40, non-dyadic mean parameters)
+        try:
+            err = G.mean_consistency(pb["mean"], pb["X"], 2.0 ** 40 + 1234567 * 2.0 ** -12)
+            if not err <= 1e-9:
+                ck.violation("the mean function used for m(x) (build_mean) and for m(q) (__call__) is one function, also for coordinates far from zero",
+                             {**idn, "relative_difference": err, "coordinates_translated_by": 2.0 ** 40}, site="MeanFunction.__call__:far")
+        except Exception as ex:
+            ck.violation("mean function raised on translated data", {**idn, "error": repr(ex)[:200]}, site="MeanFunction.__call__:far")
         if len(ck.samples) < 3 and n == 3 and pb["mean"]["k"] == "lin":
             ck.sample({**idn, "queries": c["Q"], "spec_mean": want_mu.tolist(), "spec_cov_diag": np.diag(want_cov).tolist()})
     ck.traces += len(probs)
